@@ -91,6 +91,12 @@ def fixed_dcsim(tier):
     out.append([6, 2, 1500, 1500, 1000, 1000, 900, 900, 0, 0, 100, 4096, 4096, 1000, 1000, 3, 3, 0, 0, 0])
     out.append([7, 1, 1500, 1500, 1000, 1000, 0, 0, 0, 0, 100, 4096, 4096, 1000, 1000, 3, 3, 0, 0, 0])
     out.append([8, 0, 1500, 1500, 60000, 60000, 50, 50, 20, 50, 2000, 1000, 1000, 1000, 1000, 7, 7, 0, 1000, 3])
+    # the peer vanishes right after its first flight (the whole response incl. the final size) went out
+    # under 30% loss: the reader is left knowing the final size with a gap, the local send half is done
+    for seed in range(100, 124):
+        out.append([seed, 1, 1500, 1500, 1, 10000, 0, 300, 0, 0, 100, 4096, 4096, 1, 10000, 3, 1, 600, 0, 0])
+    for seed in range(124, 136):
+        out.append([seed, 1, 1250, 4000, 1, 14000, 0, 200, 0, 200, 400, 1000, 4096, 1, 14000, 1, 1, 700, 0, 0])
     if MTU_MAX >= 32767:
         out.append([9, 0, MTU_MAX, MTU_MAX, 300000, 300000, 50, 50, 20, 50, 2000, 65536, 65536, 65536, 65536, 3, 3, 0, 0, 0])
         out.append([10, 0, 16384, 1500, 100000, 100000, 0, 0, 0, 0, 0, 65536, 65536, 65536, 65536, 3, 3, 0, 0, 0])
